@@ -556,9 +556,14 @@ def flag_field_indices():
 	return fields.index("flip_y"), fields.index("swap_xy")
 
 
-def transform_paths(mir, fn_pattern, idx_flip, idx_swap, source_call=None):
+_HELPER_CACHE = {}
+
+
+def transform_paths(mir, fn_pattern, idx_flip, idx_swap, source_call=None, helpers=(), _depth=0):
 	"""For every (flip, swap) assignment: the ordered list of TransformCoord calls on the path the function takes.
-	Returns {(flip, swap): [("flip"|"swap", receiver type), ...]} plus notes."""
+	Returns {(flip, swap): [("flip"|"swap", receiver type), ...]} plus notes.
+	helpers: name prefixes of crate-local functions whose own call sequence is spliced in where they are called (so that
+	extracting part of a path into a helper function does not hide its transforms)."""
 	header, body = function_body(mir, fn_pattern)
 	if body is None:
 		raise Inconclusive(f"function {fn_pattern} not found in the MIR dump")
@@ -574,9 +579,9 @@ def transform_paths(mir, fn_pattern, idx_flip, idx_swap, source_call=None):
 			if not m:
 				continue
 			dst, expr = m.groups()
-			if re.search(r"TilesConverterParameters\)\.%d: bool\)$" % idx_flip, expr) or re.fullmatch(r"\(_\d+\.%d: bool\)" % idx_flip, expr) and "TilesConverterParameters" in header:
+			if re.search(r"TilesConverterParameters\)\.%d: bool\)$" % idx_flip, expr) or re.fullmatch(r"\((?:_\d+|\(\*_\d+\))\.%d: bool\)" % idx_flip, expr) and "TilesConverterParameters" in header:
 				flag_of[dst] = "flip"
-			elif re.search(r"TilesConverterParameters\)\.%d: bool\)$" % idx_swap, expr) or re.fullmatch(r"\(_\d+\.%d: bool\)" % idx_swap, expr) and "TilesConverterParameters" in header:
+			elif re.search(r"TilesConverterParameters\)\.%d: bool\)$" % idx_swap, expr) or re.fullmatch(r"\((?:_\d+|\(\*_\d+\))\.%d: bool\)" % idx_swap, expr) and "TilesConverterParameters" in header:
 				flag_of[dst] = "swap"
 			elif expr.strip() in debug:
 				flag_of[dst] = debug[expr.strip()]
@@ -661,6 +666,18 @@ def transform_paths(mir, fn_pattern, idx_flip, idx_swap, source_call=None):
 						seen_source = True
 					elif "map_coord" in callee:
 						seq = seq + (("map_coord", "closure"),)
+					elif helpers and _depth < 3 and "{closure" not in callee and not callee.strip().startswith("<"):
+						# a function of this crate (its body is in the dump under exactly this name): splice in its own sequence
+						key = (callee.strip(), idx_flip, idx_swap)
+						if key not in _HELPER_CACHE:
+							pat = r"(?<=fn )" + re.escape(callee.strip()) + r"\("
+							if function_body(mir, pat)[1] is None:
+								_HELPER_CACHE[key] = None  # not a function of this crate: opaque, as before
+							else:
+								_HELPER_CACHE[key] = transform_paths(mir, pat, idx_flip, idx_swap, None, helpers, _depth + 1)[0]
+						sub = _HELPER_CACHE[key]
+						if sub is not None:
+							seq = seq + tuple(tuple(t) for t in sub[(flip, swap, has_req)])
 					stack.append((nxt, seq, seen_source, depth + 1))
 					continue
 				m = re.match(r"^switchInt\((?:move|copy) (_\d+)\) -> \[(.*)\]", term)
@@ -963,10 +980,12 @@ def run_c06_transform(prop, tier, kinds=("spec", "lookup", "stream_coord", "stre
 		mir = dump_mir_container()
 		fi, si = flag_field_indices()
 		base = r"converter::<impl [^>]*>::"
-		cov, n1, h1 = transform_paths(mir, base + r"new_from_reader\(", fi, si)
-		look, n2, h2 = transform_paths(mir, base + r"get_tile_data::\{closure#0\}\(", fi, si, source_call=r"TilesReaderTrait>::get_tile_data")
-		sbox, n3, h3 = transform_paths(mir, base + r"get_bbox_tile_stream::\{closure#0\}\(", fi, si, source_call=r"TilesReaderTrait>::get_bbox_tile_stream")
-		smap, n4, h4 = transform_paths(mir, base + r"get_bbox_tile_stream::\{closure#0\}::\{closure#0\}\(", fi, si)
+		_HELPER_CACHE.clear()
+		hp = ("converter::", "TilesConvertReader::", "TilesConverterParameters::")
+		cov, n1, h1 = transform_paths(mir, base + r"new_from_reader\(", fi, si, helpers=hp)
+		look, n2, h2 = transform_paths(mir, base + r"get_tile_data::\{closure#0\}\(", fi, si, source_call=r"TilesReaderTrait>::get_tile_data", helpers=hp)
+		sbox, n3, h3 = transform_paths(mir, base + r"get_bbox_tile_stream::\{closure#0\}\(", fi, si, source_call=r"TilesReaderTrait>::get_bbox_tile_stream", helpers=hp)
+		smap, n4, h4 = transform_paths(mir, base + r"get_bbox_tile_stream::\{closure#0\}::\{closure#0\}\(", fi, si, helpers=hp)
 		out["funcs"] = [h[:110] for h in (h1, h2, h3, h4)]
 		for n in n1 + n2 + n3 + n4:
 			out["inconclusive"].append(n + " (a data-dependent early exit is outside the transform model)")
